@@ -42,6 +42,7 @@ func (s *vC17Sys) Reset() {
 		s.env.end()
 	}
 	s.env = vStoreBegin(nil, nil)
+	vos.ResetAliases()
 	s.h = [3]*PersistentHybridIndex{}
 	s.open = [3]bool{}
 	s.owner = -1
@@ -49,9 +50,23 @@ func (s *vC17Sys) Reset() {
 	s.planted = false
 }
 
-func (s *vC17Sys) cfg() *StorageConfig {
-	return vStoreCfg{Mem: 2, Thr: 1, Comp: 5, Tmpl: "vtm", Vec: "flat"}.config()
+// cfg: how the next open names and configures the store. variant 0 = the directory by its
+// own name with vector + text + metadata templates; 1 = another subset of templates (vector
+// only); 2 = through an alias of the directory (what a symbolic link to it is on disk).
+func (s *vC17Sys) cfg(variant int) *StorageConfig {
+	tm := "vtm"
+	if variant == 1 {
+		tm = "v"
+	}
+	sc := vStoreCfg{Mem: 2, Thr: 1, Comp: 5, Tmpl: tm, Vec: "flat"}.config()
+	if variant == 2 {
+		vos.Alias(vC17Alias, vStoreDir)
+		sc.BaseDir = vC17Alias
+	}
+	return sc
 }
+
+const vC17Alias = "/alias-of-the-store-directory"
 
 func (s *vC17Sys) Enabled() []vOp {
 	if s.env.dead != "" {
@@ -67,7 +82,7 @@ func (s *vC17Sys) Enabled() []vOp {
 		}
 	}
 	if slot >= 0 {
-		ops = append(ops, vOp{K: "Open", A: slot})
+		ops = append(ops, vOp{K: "Open", A: slot}, vOp{K: "Open", A: slot, C: 1}, vOp{K: "Open", A: slot, C: 2})
 		for fi := range vC17Faults {
 			ops = append(ops, vOp{K: "OpenFault", A: slot, B: fi})
 		}
@@ -107,12 +122,17 @@ func (s *vC17Sys) Apply(op vOp, hist []vOp, check bool) {
 			f := vC17Faults[op.B]
 			s.env.fs.FailOn(f.kind, f.nth)
 		}
-		st, err := s.env.open(s.cfg())
+		st, err := s.env.open(s.cfg(op.C))
 		s.env.fs.ClearFaults()
 		if s.env.dead != "" {
 			break
 		}
 		wantOK := s.owner == -1 && op.K == "Open"
+		if op.C == 1 && err != nil {
+			// opening with another subset of templates may be refused or not; a refusal is a
+			// failed open like any other (no lock left behind, directory unchanged)
+			wantOK = false
+		}
 		if err == nil {
 			if check && !wantOK {
 				cause := fmt.Sprintf("owner=%d", s.owner)
